@@ -1,6 +1,7 @@
 package props
 
 import (
+	"bytes"
 	"encoding/hex"
 	"fmt"
 	"strings"
@@ -445,6 +446,18 @@ func runC14(c c14Case, rec *ev.Recorder) *Failure {
 		}
 	}
 	it2.Close()
+	// no key or value of the staking / distribution stores refers to the source any more
+	for _, store := range []string{stakingtypes.StoreKey, "distribution"} {
+		sit := ctx.KVStore(f.App.GetKey(store)).Iterator(nil, nil)
+		for ; sit.Valid(); sit.Next() {
+			if bytes.Contains(sit.Key(), srcAcc.Bytes()) || bytes.Contains(sit.Value(), []byte(srcAcc.String())) {
+				k := fmt.Sprintf("%x", sit.Key())
+				sit.Close()
+				return failf(fmt.Sprintf("C14/source-left-in-store/%s/prefix-%s", store, k[:2]), "%s: the %s store still refers to the source under key %s", desc, store, k)
+			}
+		}
+		sit.Close()
+	}
 	inv := &c11Env{f: f}
 	if fl := inv.invariants(ctx, desc); fl != nil {
 		fl.Sig = strings.Replace(fl.Sig, "C11/", "C14/", 1)
